@@ -4,6 +4,7 @@ package utils
 
 import (
 	"os"
+	"sync/atomic"
 	"syscall"
 )
 
@@ -15,7 +16,22 @@ import (
 // VerifCrashPoints lists the crash points in the order they are reached.
 var VerifCrashPoints = []string{"opened", "mid-write", "written", "synced", "closed", "renamed"}
 
+var verifIOHook atomic.Value // func(name string)
+
+// VerifSetIOHook installs (or, with nil, removes) a callback that is invoked at
+// every crash point, i.e. between the file-system steps of EncodeJSONFile, so a
+// harness can run an operation while a flush is doing its file I/O.
+func VerifSetIOHook(f func(name string)) {
+	if f == nil {
+		f = func(string) {}
+	}
+	verifIOHook.Store(f)
+}
+
 func verifCrash(name string, f *os.File, data []byte) {
+	if h, ok := verifIOHook.Load().(func(string)); ok {
+		h(name)
+	}
 	if os.Getenv("VERIF_CRASH_AT") != name {
 		return
 	}
